@@ -189,7 +189,11 @@ func cmdTermCamp(args []string) {
 		var texts [][]byte
 		for i, c := range cases {
 			if i >= *nfiles {
-				break
+				// beyond the files whose every prefix is taken: the whole well-formed file of every grammar of the
+				// population (generation has to finish on good input too: table construction, code generation)
+				Valuate(c, r, i%2 == 0)
+				emit("wellformed", []byte(c.RenderVariant(AllVariants[i%len(AllVariants)])))
+				continue
 			}
 			Valuate(c, r, i%2 == 0)
 			v := AllVariants[i%len(AllVariants)]
